@@ -11,6 +11,8 @@ use rtcm_rs::prelude::MessageBuilder;
 use std::collections::BinaryHeap;
 
 pub const MAX_STREAM: usize = 64 * 1024;
+/// upper bound of the rare `huge` runs whose buffers cross the 64 KiB mark
+pub const MAX_STREAM_HUGE: usize = 256 * 1024;
 pub const MAX_EVENTS: u64 = 50_000;
 
 #[derive(Clone, Copy, Debug, PartialEq, Eq)]
@@ -98,6 +100,10 @@ pub struct Cfg {
     pub chunk_mean: f64,
     pub small_l_bias: bool,
     pub tail_long_header: bool,
+    /// rare swarm knob: a stream of 66..200 KiB delivered in one piece or in very large chunks, so that
+    /// the buffers handed to the scanner are longer than 65535 bytes
+    pub huge: bool,
+    pub max_stream: usize,
     pub epoch_hz: u32,
     pub burst_max: u32,
 }
@@ -125,7 +131,7 @@ pub fn draw_cfg(prop: Prop, r: &mut Rng) -> Cfg {
             msg_subset.push(*r.pick(all));
         }
     }
-    let n_items = (r.geometric(6.0) as usize).min(200).max(1);
+    let mut n_items = (r.geometric(6.0) as usize).min(200).max(1);
     let fault_free = r.chance(0.10);
     let mut on = |p_enable: f64, r: &mut Rng, rates: &[f64]| -> f64 {
         if fault_free || !r.chance(p_enable) {
@@ -209,6 +215,25 @@ pub fn draw_cfg(prop: Prop, r: &mut Rng) -> Cfg {
         3 => 100_000_000,
         _ => 1_000_000_000,
     };
+    // drawn last and from its own sub-stream so that adding this knob did not shift earlier draws
+    let mut hr = r.fork("huge");
+    let huge = hr.chance(0.015);
+    let mut max_stream = MAX_STREAM;
+    let mut strategy = strategy;
+    let mut chunk_mean_override: Option<f64> = None;
+    if huge {
+        max_stream = hr.range(66 * 1024, 200 * 1024) as usize;
+        n_items = 4000;
+        for x in ws.iter_mut() {
+            if *x == 0 {
+                *x = 1;
+            }
+        }
+        ws[0] += 6;
+        ws[2] += 6;
+        strategy = if hr.chance(0.5) { "one_shot" } else { "random_sizes" };
+        chunk_mean_override = Some(*hr.pick(&[20_000.0, 40_000.0, 70_000.0]));
+    }
     Cfg {
         n_items,
         w_lib: ws[0],
@@ -238,9 +263,11 @@ pub fn draw_cfg(prop: Prop, r: &mut Rng) -> Cfg {
         poll_ns,
         read_limit: *r.pick(&READ_LIMITS),
         p_stall: *r.pick(&[0.0, 0.0, 0.02, 0.1]),
-        chunk_mean: *r.pick(&CHUNK_MEANS),
+        chunk_mean: { let c = *r.pick(&CHUNK_MEANS); chunk_mean_override.unwrap_or(c) },
         small_l_bias,
         tail_long_header: r.chance(0.08),
+        huge,
+        max_stream,
         epoch_hz: *r.pick(&[1, 5, 10]),
         burst_max: r.range(1, 8) as u32,
     }
@@ -571,7 +598,7 @@ pub fn gen_items(cfg: &Cfg, st: &mut Station, r: &mut Rng) -> Vec<Item> {
                 }
             }
         };
-        if size + it.bytes.len() > MAX_STREAM - 4096 {
+        if size + it.bytes.len() > cfg.max_stream - 4096 {
             break;
         }
         size += it.bytes.len();
